@@ -61,12 +61,34 @@ pub unsafe fn m_dealloc(ptr: *mut u8, layout: Layout) {
     m.live = false;
 }
 
+// ---- observation at the panic point ------------------------------------------------------------------
+// Kani has no unwinding, so "a refused request leaves the storage consistent" is asserted at the moment the
+// library panics: core's panic entry points for unwrap/expect are replaced by twins that first check that the
+// HeapMem under test still describes the allocation it owns.
+pub static mut PM: *const HM = core::ptr::null();
+fn at_panic() {
+    let p = unsafe { PM };
+    if !p.is_null() {
+        let m = unsafe { &*p };
+        let e = m.element_layout().size();
+        kani::assert(am().live == (e != 0 && m.size() != 0) && (!am().live || am().size == m.size() * e),
+            "C18: when a capacity request is refused the storage still describes exactly the allocation it owns");
+    }
+}
+pub const fn obs_option_unwrap_failed() -> ! { panic!("called `Option::unwrap()` on a `None` value") }
+pub fn obs_option_unwrap_failed_rt() -> ! { at_panic(); panic!("called `Option::unwrap()` on a `None` value") }
+pub fn obs_option_expect_failed(_msg: &str) -> ! { at_panic(); panic!("expect failed") }
+pub fn obs_result_unwrap_failed(_msg: &str, _e: &dyn core::fmt::Debug) -> ! { at_panic(); panic!("unwrap on Err") }
+
 macro_rules! ha {
     ($(#[$m:meta])* $name:ident, $body:expr) => {
         #[kani::proof]
         #[kani::stub(alloc::alloc::alloc, crate::kani_verif::k1_heap::m_alloc)]
         #[kani::stub(alloc::alloc::realloc, crate::kani_verif::k1_heap::m_realloc)]
         #[kani::stub(alloc::alloc::dealloc, crate::kani_verif::k1_heap::m_dealloc)]
+        #[kani::stub(core::option::unwrap_failed, crate::kani_verif::k1_heap::obs_option_unwrap_failed_rt)]
+        #[kani::stub(core::option::expect_failed, crate::kani_verif::k1_heap::obs_option_expect_failed)]
+        #[kani::stub(core::result::unwrap_failed, crate::kani_verif::k1_heap::obs_result_unwrap_failed)]
         $(#[$m])*
         fn $name() { $body }
     };
@@ -117,6 +139,7 @@ fn heap_protocol_h<T: 'static>() {
 fn heap_invalid_h<T: 'static>() {
     am_reset();
     let mut m = Heap.build(Layout::new::<T>());
+    unsafe { PM = &m as *const HM; }
     let a: usize = kani::any();
     kani::assume(fits::<T>(a));
     m.resize(a);
@@ -151,6 +174,7 @@ fn heap_expand_h<T: 'static>() {
 fn heap_expand_invalid_h<T: 'static>() {
     am_reset();
     let mut m = Heap.build(Layout::new::<T>());
+    unsafe { PM = &m as *const HM; }
     let a: usize = kani::any();
     kani::assume(fits::<T>(a));
     m.resize(a);
@@ -194,3 +218,4 @@ fn heap_rawparts_h<T: 'static>() {
 }
 
 include!("k1_heap.inst.rs");
+
